@@ -379,6 +379,49 @@ fn explore_with(ctx: &Ctx, obs: &Observer, acc: &Acc) {
     if std::env::var("VERIF_SKIP_INPROCESS").is_err() {
         inprocess(ctx, acc, obs);
     }
+    extreme_values(ctx, acc);
+}
+
+/// Streams of the largest finite magnitudes of both signs (every finite f64 is a valid value):
+/// differences and weighted sums of such means overflow f64 unless computed with care. The
+/// full oracle is evaluated after every 50 values and at the end.
+fn extreme_values(ctx: &Ctx, acc: &Acc) {
+    let m = f64::MAX;
+    let shapes: Vec<(&str, Box<dyn Fn(usize) -> f64 + Sync>)> = vec![
+        ("block of -MAX then block of +MAX", Box::new(move |i| if i < 150 { -m } else { m })),
+        ("alternating -MAX / +MAX", Box::new(move |i| if i % 2 == 0 { -m } else { m })),
+        ("ramp from -MAX/1.5 to +MAX/1.5", Box::new(move |i| (i as f64 / 150.0 - 1.0) * (m / 1.5))),
+        ("+-MAX around +-1", Box::new(move |i| match i % 4 { 0 => -m, 1 => m, 2 => 1.0, _ => -1.0 })),
+        ("+MAX/2 .. +MAX (one sign)", Box::new(move |i| m / 2.0 + (i as f64 / 300.0) * (m / 2.0))),
+    ];
+    let mut n = 0u64;
+    for (name, f) in &shapes {
+        for k in [10u16, 20, 100] {
+            let mut p = Pair::new(k);
+            let mut e = tdm::Edges::new();
+            let mut ops: Vec<Op> = vec![];
+            for i in 0..300 {
+                let op = Op::Value(f(i));
+                ops.push(op.clone());
+                n += 1;
+                if let Err((key, what)) = p.apply(&op, &mut e) {
+                    let case = tdm::ops_json(k, &ops, "C10");
+                    acc.vio(&key, case_size(&case), &|| format!("k={k} extreme values [{name}] value {i}: {what}"), &|| case.clone());
+                    break;
+                }
+                if i % 50 == 49 {
+                    let v = p.check10(GridCfg { qcap: 64, sp_pts: 4 });
+                    for (key, what) in v.violations {
+                        let case = tdm::ops_json(k, &ops, "C10");
+                        acc.vio(&key, case_size(&case), &|| format!("k={k} extreme values [{name}] after {} values: {what}", i + 1), &|| case.clone());
+                    }
+                }
+            }
+        }
+    }
+    ctx.add_states(n);
+    ctx.add_transitions(n);
+    acc.count("extreme-value streams: values offered (5 shapes x 3 k x 300, oracle every 50)", n);
 }
 
 pub fn run(ctx: &Ctx) -> i32 {
